@@ -10,7 +10,8 @@ def run(tier, seed, repo, focus=None):
                  "of every batch (and the reference) permuted (also DataFrames with non-unique row labels), same seed schedule: measured divergence equal; decisions "
                  "equal where the threshold is position-free (detect_batch=3, KdqTreeBatch, NNDVI); NNPS distance of "
                  "permuted samples incl. lattice-valued data with ties; single large batches (9000 / 17000 rows, more in the thorough "
-                 "tier) sorted vs shuffled for the kdq-tree partitioner, KdqTreeBatch and HDDDM; non-trivial = a drift occurs",
+                 "tier) sorted vs shuffled for the kdq-tree partitioner, KdqTreeBatch and HDDDM; kdq-tree with coarse minimum cell sizes on wide-range features; "
+                 " non-trivial = a drift occurs",
                  {"seeds": 3 if quick else 10})
     known = load_known()
     scns = []
@@ -52,4 +53,8 @@ def run(tier, seed, repo, focus=None):
     scns = [{"det": name, "seed": seed, "rows": rows} for name in ("KDQTreePartitioner", "KdqTreeBatch", "HDDDM")
             for rows in ((9000, 17000) if quick else (5000, 9000, 17000, 33000, 70000))]
     drivers.run_scenarios(res, "row_order_large", scns, known)
+    # coarse minimum cell sizes on wide-range features (the stop rule of the tree then really bites)
+    scns = [{"seed": seed + s, "rows": rows, "lb": lb, "count_ubound": cu, "d": d}
+            for s in range(2 if quick else 8) for (rows, lb, cu, d) in ((300, 0.1, 8, 3), (200, 0.05, 5, 2), (400, 0.2, 12, 3))]
+    drivers.run_scenarios(res, "row_order_coarse", scns, known)
     return res.finish()
